@@ -308,6 +308,48 @@ class C09:
             # table <-> level: RUN on Evaluation, EXAMPLE on ClipEvaluation, SOUNDEVENT on Match
             self.levels(tm, modname, m)
 
+    def tables_of(self, v, modname, m, fname, fs, depth):
+        """The metric tables whose rows the value `v` (a metrics= argument inside function `fname`) is computed from.
+        The arguments of in-module helper calls and the elements of comprehensions are data (truth, scores), not the
+        metric list: they are not searched; the helper's own returns and the comprehensions' iterables are."""
+        ctx = self.ctx
+        tabs = set()
+        if depth > 4:
+            return tabs
+        stack = [v]
+        while stack:
+            y = stack.pop()
+            if not isinstance(y, tuple) or not y:
+                continue
+            if not isinstance(y[0], str):
+                stack.extend(c for c in y if isinstance(c, tuple))
+                continue
+            if y[0] == "comp":
+                # the rows come from the iterables; what the elements are computed from is data
+                stack.extend(g[1] for g in y[3])
+                continue
+            if y[0] == "global" and y[1].startswith(modname + ":") and y[1].split(":")[1] in TABLES:
+                tabs.add(y[1].split(":")[1])
+                continue
+            if y[0] == "call" and y[1][0] == "global" and y[1][2] == "func" and y[1][1].startswith(modname + ":"):
+                hname = y[1][1].split(":")[1]
+                hs = ctx.summ.of_func(modname, hname)
+                for r in hs.returns:
+                    tabs |= self.tables_of(r.term, modname, m, hname, hs, depth + 1)
+                continue
+            if y[0] == "param" and y[1] in fs.params and y[1] == "metrics":
+                for cname, cdefs in m.defs.items():
+                    if isinstance(cdefs[-1], ast.FunctionDef):
+                        cs = ctx.summ.of_func(modname, cname)
+                        for ce in cs.calls:
+                            if ce.term[1] == ("global", f"{modname}:{fname}", "func"):
+                                b, _, _, _ = bind_args(ce.term, fs.params)
+                                if b.get("metrics") is not None:
+                                    tabs |= self.tables_of(b["metrics"], modname, m, cname, cs, depth + 1)
+                continue
+            stack.extend(c for c in y[1:] if isinstance(c, tuple))
+        return tabs
+
     def levels(self, tm, modname, m):
         ctx = self.ctx
         level = {"RUN_METRICS": "Evaluation", "EXAMPLE_METRICS": "ClipEvaluation", "SOUNDEVENT_METRICS": "Match"}
@@ -323,25 +365,7 @@ class C09:
                         mv = dict(x[3]).get("metrics")
                         if mv is None:
                             continue
-                        tabs = {y[1].split(":")[1] for y in walk(mv) if y[0] == "global" and y[1].startswith(modname + ":") and y[1].split(":")[1] in TABLES}
-                        # metrics computed by a helper / passed as parameter
-                        if not tabs:
-                            for y in walk(mv):
-                                if y[0] == "call" and y[1][0] == "global" and y[1][1].startswith(modname + ":"):
-                                    hs = ctx.summ.of_func(modname, y[1][1].split(":")[1])
-                                    for r in hs.returns:
-                                        tabs |= {z[1].split(":")[1] for z in walk(r.term) if z[0] == "global" and z[1].startswith(modname + ":") and z[1].split(":")[1] in TABLES}
-                                if y == ("param", "metrics"):
-                                    # resolve at the call sites of this function
-                                    for cname, cdefs in m.defs.items():
-                                        if isinstance(cdefs[-1], ast.FunctionDef):
-                                            cs = ctx.summ.of_func(modname, cname)
-                                            for ce in cs.calls:
-                                                if ce.term[1] == ("global", f"{modname}:{name}", "func"):
-                                                    b, _, _, _ = bind_args(ce.term, fs.params)
-                                                    v = b.get("metrics")
-                                                    if v is not None and v[0] == "global":
-                                                        tabs.add(v[1].split(":")[1])
+                        tabs = self.tables_of(mv, modname, m, name, fs, 0)
                         for t in tabs:
                             found.setdefault(t, set()).add(x[1][1].split(":")[1])
         for tab, cls in level.items():
